@@ -95,12 +95,14 @@ def detect(wt, mdir, prop, name, also, thorough):
                 det["%s/%s" % (p, tier)] = {"rc": rc, "verdict": (line[-1] if line else o[-200:])[:300],
                                            "detail": (detail[0].strip()[:400] if detail else ""), "wall_s": round(time.time() - t0, 1)}
                 print("  %s %s: rc=%s %s %s" % (p, tier, rc, (line[-1] if line else "")[:140], (detail[0].strip()[:200] if detail else "")))
-                if rc == 1:
-                    break
+                if rc == 1 and "no-failing-input-found" not in (line[-1] if line else ""):
+                    break          # a concrete failing input was reported; otherwise try the deeper tier too
     finally:
         sh("git -C /repo checkout -- .")
+        for t in ("consts_extract", "asm_extract", "wraptable_extract", "shape_extract"):   # Generated/*.lean back to the clean tree
+            sh("python3 translate/%s.py" % t, cwd=V)
     meta["detection"] = det
-    meta["caught_by"] = [k for k, v in det.items() if v["rc"] == 1]
+    meta["caught_by"] = [k + (" (no-failing-input-found)" if "no-failing-input-found" in v["verdict"] else "") for k, v in det.items() if v["rc"] == 1]
     out = os.path.join(V, "seeded", "%s-%s" % (prop, name))
     os.makedirs(out, exist_ok=True)
     for fn in os.listdir(md):
